@@ -10,7 +10,7 @@ from .. import core, gen
 from ..oracle import N, value
 
 RULE = ("Hypothesis token soup biased to date-assembling, range, duration and modifier tokens (incl. "
-        "impossible dates, stacked modifiers, reversed ranges), mutated corpus expressions and "
+        "impossible dates, stacked modifiers, reversed ranges), structured families, the surface forms of the specification grammar used by C03-C08/C20, mutated corpus expressions and "
         "assigned-code-point free text x reference times x latent on/off x depth {10, 0 within the work "
         "bound} - ALL candidates of ctparse_gen plus the returned parse. Oracle (validity predicate "
         "written from the property): month 1-12, hour 0-23, minute 0-59, DOW 0-6, POD a key of "
@@ -228,11 +228,53 @@ def _boundary(arg):
     return acc
 
 
+def grammar_texts():
+    """surface forms of the specification grammar used by C03-C08 and C20 (so that the validity
+    predicate also sees every candidate these sweeps' texts produce)"""
+    from .. import grammar as G
+    from . import c04, c06, c07, c08, c20
+    out = [f for _, _, f in G.rel_forms()]
+    out += [t for _, _, t in c04.all_items()]
+    out += [t for _, t, _, _, _ in c06.spoken_items()]
+    for h, mi in ((0, 0), (0, 30), (12, 0), (12, 30), (23, 59), (8, 5)):
+        out += [t for _, t, _, _, _ in c06.items_for_minute(h, mi)]
+    out += [t for _, t, _, _, _ in c08.simple_items() if " 3 " in " " + t or t.split(" ")[0] in ("0", "1", "31", "120", "thirtyone", "einunddreißig")]
+    for w, side, x in c07.beforeafter_items():
+        out.append(w + " " + x[0])
+    for sh, eh in ((9, 5), (22, 2), (12, 12), (0, 0), (23, 1), (8, 17), (12, 0), (5, 5)):
+        for anchor in c07.ANCHORS:
+            for style in ("colon", "bare"):
+                out.append(c07.clock_case(sh, 0, eh, 0, " - ", ("", ""), anchor, style, True, c07.ANCHOR_REF)[0])
+    k = 0
+    for day in c20.DAYS:
+        for ci, (tpl, kind) in enumerate(c20.CLOCKS):
+            k += 1
+            if k % 3:
+                continue
+            ct = c20.clock_text(tpl, kind, c20.HOURS[k % 8], c20.MINS[k % 3])[0]
+            out.append(c20.compose(day, ct, "day-first" if k % 2 else "clock-first", c20.CONNS[k % 4]))
+    return sorted(set(out))
+
+
+def _grammar_shard(arg):
+    pid, part = arg
+    pods = _pod_hours()
+    acc = core.Acc(pid)
+    for i, text in enumerate(part):
+        for ts in (dt.datetime(2020, 2, 29, 23, 59, 59, 999999), dt.datetime(2021, 3, 10, 11, 20)):
+            run_case(acc, text, ts, True, 10, "grammar-forms", pods)
+    return acc
+
+
 def run(ctx):
     n = 200000 if ctx.thorough else 8000
     shards = 32 if ctx.thorough else 16
     acc = core.pmap_acc(ctx.pid, _shard, [(ctx.pid, ctx.seed, n // shards, i) for i in range(shards)])
     acc.merge(core.pmap_acc(ctx.pid, _boundary, [(ctx.pid, p) for p in core.chunks(BOUNDARY, 16)]))
+    gt = grammar_texts()
+    if not ctx.thorough:
+        gt = [t for i, t in enumerate(gt) if i % 8 == ctx.seed % 8]
+    acc.merge(core.pmap_acc(ctx.pid, _grammar_shard, [(ctx.pid, p) for p in core.chunks(gt, 32)]))
     return core.finish(ctx, acc, RULE, assumptions=[
         "timeout=0; work bound as in C01 (<=400 candidate sequences; depth 0 only for <=40)",
         "span bound is len(reference-normalised text); texts containing '#' therefore get the weaker bound (label stripping only shortens)",
